@@ -156,8 +156,22 @@ def val_text(s):
     return '%s(%s)' % (s['kind'], F(s['n'], s['d']))
 
 
+def _qtext(q):
+    n = sum(l * 10000 ** i for i, l in enumerate(q['n']))
+    d = sum(l * 10000 ** i for i, l in enumerate(q['d'])) or 1
+    return str(F(q['s'] * n, d))
+
+
 def brief(e):
     op = e['op']
+    if str(e.get('id', '')).startswith('suite:'):
+        # recorded from the repository's suite: operands are the projected values
+        if op == 'rate_make':
+            m = sum(l * 10000 ** i for i, l in enumerate(e['mult']['v']))
+            return 'ExchangeRate(%s, %s, %s, %s)' % (e['uc'], m if e['mult']['integral'] else '(not integral)', e['tc'],
+                                                     _qtext(e['amt']) if e['amtnum'] else '(not a number)')
+        if op == 'money_rate':
+            return '%s: %s %s %s rate %s' % (e['kind'], _qtext(e['amt']), e['cur'], e['mode'], rate_text(e['r']))
     if op == 'rate_make':
         return 'ExchangeRate(%s, %s, %s, %s)' % (e['uc'], val_text(e['multv']), e['tc'], val_text(e['amtv']))
     if op == 'money_rate':
@@ -366,3 +380,43 @@ def _brief_any(c):
         return brief(c) if 'brief' in globals() else _brief(c)
     except Exception:
         return json.dumps(c)[:160]
+
+
+def rejudge(ctx, evs):
+    """Judge recorded events once more (replay of a suite event)."""
+    return _validate_suite(ctx, evs, 'replay')
+
+
+def repo_suite(ctx, ops):
+    """The exchange-rate calls the repository's own test suite makes (recorded by qtrace_money.py), judged by
+    MoneyTrace.tla like the harness's own cases."""
+    from checks import bcalccheck
+    evs = [e for e in bcalccheck.suite_events(ctx) if e['op'] in ops]
+    if not evs:
+        ctx.fail('test suite under the tracer recorded no %s events' % sorted(ops))
+        return None
+    for j, e in enumerate(evs):
+        if not str(e['id']).startswith('suite:'):
+            e['id'] = 'suite:%s' % e['id']
+    return _validate_suite(ctx, evs, 'repo-suite')
+
+
+def _validate_suite(ctx, evs, what):
+    byid = {e['id']: e for e in evs}
+    for e in evs:
+        ctx.count(json.dumps({k: v for k, v in e.items() if k != 'id'}, sort_keys=True, default=str))
+    ctx.log('%s: %d exchange-rate events, validating with MoneyTrace.tla' % (what, len(evs)))
+    from adapters import money
+    wd_iso = os.path.join(tlc.scratch_root(), 'iso4217.json')
+    if not os.path.exists(wd_iso):
+        with open(wd_iso, 'w') as f:
+            json.dump(money.iso_table(), f)
+    chunks = [evs[k:k + 1500] for k in range(0, len(evs), 1500)]
+    v = tracecheck.validate(chunks, 'MoneyTrace', tag=ctx.pid + '-suite', env={'ISO_FILE': wd_iso})
+    ctx.add_trace_verdict(v, what + ' (money)')
+    ctx.traces += len(chunks)
+    for eid, verdict, _ in v.deviations:
+        e = byid[eid]
+        ctx.deviation(sig_of(e, verdict), 'recorded while the repository suite ran: %s: %s; observed %s' % (
+            brief(e), verdict, obs_text(e)), dict(kind='money-suite', event=e))
+    return v
